@@ -299,8 +299,8 @@ func Array[V any](arguments ...any) col.ArrayLike[V] {
 		var iterator = collection.GetIterator()
 		for iterator.HasNext() {
 			var value = iterator.GetNext().(V)
+			index++ // Array indices are ORDINAL based.
 			array.SetValue(index, value)
-			index++
 		}
 	default:
 		panic("The constructor for an array requires an argument.")
